@@ -11,6 +11,7 @@ RULE = ("random construction programs: attribute assignment, register_module / r
         "node observed after each; Sequential forward order observed with tagging modules. Oracle: plain-Python registry-tree model. distinct key "
         "= canonical tree shape + action kinds; non-trivial = depth >= 2 and (a shared object or a re-assignment or >= 3 modules)")
 RULE += (' Added after the seeded rounds: the tree is observed in the middle of its construction and changed again; existing names (also positional Sequential keys) re-used; containers with more than ten positions; integer parameters; wrong-kind registrations that the library refuses (the tree is what it was); every action also issued under no_grad.')
+RULE += (" Round 6 / reach monitor: two distinct parameters over one array / made from one source tensor.")
 ASSUMPTIONS = ["registration order after re-assigning a name to an object of the same kind may keep the original slot or move to the end (both are "
                "'registration order'); order is asserted only among entries that were never re-assigned",
                "a parameter or module reachable along several paths is reported at its first occurrence in depth-first registration order"]
